@@ -4,7 +4,7 @@
 set -u
 PID=$1; PATCH=$(readlink -f "$2"); TIER=${3:-quick}
 WT=/tmp/seedwt-$PID-$$; VC=/tmp/verifcopy-$PID-$$
-git -C /repo worktree add -q --detach "$WT" HEAD || exit 2
+git -C /repo worktree add -q --detach "$WT" "${SEEDRUN_BASE:-HEAD}" || exit 2
 if ! git -C "$WT" apply "$PATCH" 2>/dev/null && ! git -C "$WT" apply --3way "$PATCH"; then echo "PATCH DOES NOT APPLY"; git -C /repo worktree remove --force "$WT"; exit 2; fi
 mkdir -p "$VC" && rsync -a --exclude run --exclude .git --exclude 'ocaml/build' /verif/ "$VC"/
 ( cd "$VC" && VERIF_REPO="$WT" timeout 3000 ./check "$PID" --tier "$TIER" > "$VC/out.txt" 2>&1; echo "exit=$?" >> "$VC/out.txt" )
